@@ -32,13 +32,19 @@ GROUPS.append(G("pb_SelectedCount", SRC, "h_SelectedCount", enforce=[], dfcc=Fal
 GROUPS.append(G("pb_main_measures_first", "harness/C05/h_p2bin_main.c", "h_main_measures_first", enforce=[], dfcc=False, drop_unused=True, link=["toolutils.c", "as_endian.c", "bpemu.c"],
                 unwind=6, unwindset=["@MeasureFile:MeasureFile:last:3"], timeout=600, cflags=ERRNO, functions=["main", "MeasureFile"], object_bits=12, flags=["--slice-formula"],
                 bounded="one input file with one data record; option parsing and initialisers are oracles; the path ends where the target is opened"))
+GROUPS.append(G("ch_AddChunk_1", "harness/C05/h_chunks.c", "h_AddChunk", enforce=[], dfcc=False, drop_unused=True, link=[], stubs=["stubs/gerr.c"], unwind=5, timeout=600, object_bits=12,
+                defs=["-DVERIF_CHUNKS=1"], functions=["AddChunk", "Overlap", "SetChunk", "IncChunk"], flags=["--slice-formula"],
+                bounded="list of at most 1 chunk before the call, addresses and lengths below 2^32: warning, exact coverage and disjointness"))
+GROUPS.append(G("ch_AddChunk_2_warn", "harness/C05/h_chunks.c", "h_AddChunk", enforce=[], dfcc=False, drop_unused=True, link=[], stubs=["stubs/gerr.c"], unwind=5, timeout=600, object_bits=12,
+                defs=["-DVERIF_CHUNKS=2", "-DVERIF_WARN_ONLY"], functions=["AddChunk", "Overlap", "SetChunk", "IncChunk"], flags=["--slice-formula"],
+                bounded="list of at most 2 chunks before the call, addresses and lengths below 2^32: the overlap warning only"))
 TRUSTED_BASE = ["stubs/gfile.c ghost stdio model (exact position/length, one witness byte, pass-through cell, uniform-buffer ghost for memset)",
                 "stubs/gfile_small.c (bounded model with every byte, CloseTarget only)", "fopen creates/truncates the target (harness sets length 0)",
                 "FilterOK and AddChunk observed/oracle (FilterOK is under contract in C07; AddChunk / overlap warning not under contract)",
                 "message catalogue, printf/fprintf replaced by no-op monitors"]
 ASSUMPTIONS = ["record addresses do not wrap around 2^32; byte addresses of the window fit 32 bits", "granularity byte is 1, 2 or 4",
                "the image is smaller than 2 GiB (file positions are long)", "main()'s call order is under obligation only up to the creation of the image (MeasureFile before OpenTarget); ProcessFile over all inputs / CloseTarget order is not"]
-NOT_COVERED = ["main: option parsing, call order after the image is created", "AddChunk/overlap warning (chunks.c)", "CMD_ByteMode table", "more than one data record per file (record loop unwound for one data + end record)", "EraseFile"]
+NOT_COVERED = ["main: option parsing, call order after the image is created", "DeleteChunk", "CMD_ByteMode table", "more than one data record per file (record loop unwound for one data + end record)", "EraseFile"]
 EXPLANATION = ("ProcessFile's copy loop is closed by a loop contract (any record length); the record loop is unwound for one data record; lane modes are "
                "bounded stand-ins on the real 4 KiB transfer buffer (records of at most 8 bytes).")
 MANIFEST = dict(
